@@ -41,7 +41,11 @@ func (o *Obligation) smtVariant(relaxed bool) string {
 		b.WriteString("\n")
 		b.WriteString(o.tx.d.strDistinct())
 		b.WriteString("\n")
+		rel := o.tx.relevantBlocks(o.Block)
 		for i := 0; i < o.NAssume && i < len(o.tx.assumes); i++ {
+			if rel != nil && i < len(o.tx.assumeTags) && o.tx.assumeTags[i] >= 0 && !rel[o.tx.assumeTags[i]] {
+				continue
+			}
 			if (o.Cover || relaxed) && (strings.Contains(o.tx.assumes[i], "(forall ") || strings.Contains(o.tx.assumes[i], "(exists ")) {
 				continue
 			}
@@ -66,6 +70,9 @@ type solverSpec struct {
 var solvers = []solverSpec{
 	{"z3-5.1", func(t int, f string) []string { return []string{"z3-new", "-smt2", fmt.Sprintf("-T:%d", t), f} }},
 	{"z3-4.8", func(t int, f string) []string { return []string{"z3", "-smt2", fmt.Sprintf("-T:%d", t), f} }},
+	{"z3-5.1-ematch", func(t int, f string) []string {
+		return []string{"z3-new", "-smt2", fmt.Sprintf("-T:%d", t), "smt.auto_config=false", "smt.mbqi=false", f}
+	}},
 	{"cvc5-1.0", func(t int, f string) []string {
 		return []string{"cvc5", fmt.Sprintf("--tlimit=%d", t*1000), "--full-saturate-quant", f}
 	}},
